@@ -16,7 +16,7 @@ from gen import hx, unhx, rbytes
 import props.c06_fixed as c6f
 import props.c06_var as c6v
 import props.c07 as c07
-from props.c05 import shared_conf, conf_untouched, contrast_conf, decoded_alone
+from props.c05 import shared_conf, conf_untouched, contrast_conf, decoded_alone, mutate_cfdp, MUT_ALL, _conf as fresh_conf
 
 from spacepackets.cfdp.defs import PduType
 from spacepackets.cfdp.pdu import (
@@ -329,8 +329,42 @@ def _make_holder(obj, via: int) -> PduHolder:
     return PduHolder(obj)
 
 
+def _redecode_probe(raw: bytes, mask: int):
+    """key "mut" of a case: the factory decodes, the application modifies what it got through the public setters (see
+    props.c05.mutate_cfdp), the factory decodes again - the same octets, the same PDU with its last bit flipped (refused
+    before and after when the PDU carries a CRC), the same PDU followed by other octets"""
+    others = [raw[:-1] + bytes([raw[-1] ^ 1]), raw + b"\x5a\xa5\x00"] if raw else []
+    core.redecode_after_mutation(PduFactory.from_raw, raw, _digest, mutate_cfdp(mask), "PduFactory.from_raw", others)
+
+
+def _poison(k: Kind, a):
+    """key "poison" of a fac_roundtrip case: calls that fail and are caught - packing a PDU of the same kind that was made
+    unencodable (own configuration object), the factory on cut / foreign buffers. What is packed and decoded next must not
+    know about them."""
+    def bad_pack(how):
+        def f():
+            o = k.build(a, fresh_conf(a))
+            how(o)
+            o.pack()
+        return f
+
+    def cut(n):
+        def f():
+            good = bytes(k.build(a, fresh_conf(a)).pack())
+            PduFactory.from_raw(good[:n] if n >= 0 else good[:len(good) + n])
+        return f
+    ts = core.tolerant_set
+    core.attempt_all([bad_pack(lambda o: ts(o.pdu_header, "transaction_seq_num", None)),
+                      bad_pack(lambda o: ts(o.pdu_header.pdu_conf, "dest_entity_id", None)),
+                      bad_pack(lambda o: ts(o.pdu_header, "pdu_data_field_len", 1 << 20)),
+                      cut(-1), cut(5), cut(3),
+                      lambda: PduFactory.from_raw(b"\xe0" + bytes(k.build(a, fresh_conf(a)).pack())[1:])])
+
+
 def _roundtrip(k: Kind, a, sfx: bytes):
     """pack, factory, and every clause of the statement visible on the real code alone"""
+    if a.get("poison"):
+        _poison(k, a)
     conf = shared_conf(a)      # the PduConfig instance a program would hold for these parameters (shared between cases)
     obj = k.build(a, conf)
     raw = pack_stable(obj, f"{k.cls.__name__}.pack()")
@@ -358,6 +392,8 @@ def op_fac_roundtrip(a):
 
 
 def op_fac_from_raw(a):
+    if a.get("mut"):
+        _redecode_probe(unhx(a["raw"]), a["mut"])
     obj = _from_raw_sfx(unhx(a["raw"]), unhx(a["suffix"]))
     return _isolated(obj, _payload(obj))
 
@@ -408,8 +444,8 @@ def refix_crc(b: bytes, crc: int) -> bytes:
     return c6f.with_crc(b[:-2]) if crc and len(b) > 2 else b
 
 
-def from_raw_case(raw: bytes, sfx: bytes, expect: str, tag: str, errclass: bool = False) -> Case:
-    return Case({"op": "fac_from_raw", "raw": hx(raw), "suffix": hx(sfx)}, expect, errclass=errclass, tag=tag)
+def from_raw_case(raw: bytes, sfx: bytes, expect: str, tag: str, errclass: bool = False, **extra) -> Case:
+    return Case({"op": "fac_from_raw", "raw": hx(raw), "suffix": hx(sfx), **extra}, expect, errclass=errclass, tag=tag)
 
 
 def inspect_case(raw: bytes, tag: str) -> Case:
@@ -672,6 +708,18 @@ class C12(Prop):
             for c in (a, b, a):
                 for k in KINDS:
                     yield from_raw_case(k.spec(k.params(rng, c, j + 1)), b"", "valid", f"{k.name}:isolation-pair")
+        # --- what the application did before: it modified, through the public setters, PDUs the factory had decoded from
+        #     the same octets (key "mut": each setter group alone, all, random subsets); pack / decode calls that failed and
+        #     were caught (key "poison") ---
+        singles = [1 << n for n in range(10)] + [MUT_ALL, 1 | 128]
+        for j in range(400 if thorough else 24):
+            a = c6f.rand_conf(rng)
+            for k in KINDS:
+                m = singles[(j + k.idx) % len(singles)] if j % 2 == 0 else rng.randint(1, MUT_ALL)
+                args = k.params(rng, a, j)
+                yield from_raw_case(k.spec(args), b"", "valid", f"{k.name}:setters-then-decode", mut=m)
+                yield Case({"op": "fac_roundtrip", "kind": k.idx, **k.params(rng, a, j + 1), "suffix": "", "poison": 1}, "valid",
+                           tag=f"{k.name}:failed-calls-then-roundtrip")
 
 
 PROP = C12()
